@@ -101,7 +101,7 @@ example : decodeCues ([0,0,0,0,0,0,0,0] ++ [0,0,0,0,0,0,0,1] ++ [7] ++ [0,0,0,0,
 
 `TracksV2.applySetter` (lean/EngineModel/TracksV2/Lens.lean, the Model of `v2::track_impl`'s setters on
 one Track row whose five BLOB columns are kept as decoded value + trailing `extra_data`) is related to
-the stored payload bytes through the Spec encoders (`payloadTrack … payloadLoops`): for each of the nine
+the stored payload bytes through the Spec encoders (`payloadTrack … payloadLoops`): for each of the eleven
 read-modify-write setters every other column's payload is unchanged and, inside the touched column,
 only the byte range of the named field may differ (`AgreeOutside a b`: equal length, equal before `a`
 and from `b` on).  The row is arbitrary — foreign entry counts, labelled or coloured empty slots, odd
@@ -177,20 +177,37 @@ theorem C04_setter_frame_beatgrid (ops : FOps) (g : List GMarker) (r r' : Row)
 coloured empty slot, flag set, two trailing bytes) -/
 example : ∃ r', applySetter ops0 (.hotCueAt 0 (some cue0)) row0 = .ok r' := ⟨_, rfl⟩
 
-/- Full statement for the two whole-column setters that are NOT read-modify-write (FALSE of the code —
-KNOWN FINDING `v2-set-loops-waveform-drop-extra-data`):
-     applySetter ops (.loops v) r = .ok r' → ∃ head head', payloadLoops r = head ++ r.loops.2 ∧ payloadLoops r' = head' ++ r.loops.2
-   `track_impl::set_loops` and `set_waveform` build a fresh blob: the trailing extra_data of the
-   loops / overview-waveform column is dropped. -/
-theorem C04_setter_frame_loops_counterexample :
-    ∃ r', applySetter ops0 (.loops (getLoops rowL)) rowL = .ok r' ∧
-      payloadLoops rowL = payloadLoops r' ++ [0xcc] ∧ payloadLoops r' ≠ payloadLoops rowL :=
-  loops_setter_counterexample
+/-- `set_loops` (read-modify-write since `fix:` bee2c23 — formerly the known finding
+`v2-set-loops-waveform-drop-extra-data`, with `C04_setter_frame_loops_counterexample`): the loops payload is
+the encoding of the loop list followed by the trailing `extra_data`; the call replaces the list by the new
+(padded) one and keeps the trailing bytes; every other column is byte-identical. -/
+theorem C04_setter_frame_loops (ops : FOps) (v : List (Option LoopV)) (r r' : Row)
+    (h : applySetter ops (.loops v) r = .ok r') :
+    payloadTrack r' = payloadTrack r ∧ payloadOvw r' = payloadOvw r ∧ payloadBeat r' = payloadBeat r ∧
+    payloadCues r' = payloadCues r ∧
+    ∃ ls, writeLoops v = .ok ls ∧ payloadLoops r = V2.loops.enc r.loops.1 ++ r.loops.2 ∧
+      payloadLoops r' = V2.loops.enc ls ++ r.loops.2 :=
+  frame_loops ops v r r' h
 
-theorem C04_setter_frame_waveform_counterexample :
-    ∃ r', applySetter ops0 (.waveform (getWaveform row0)) row0 = .ok r' ∧
-      payloadOvw row0 = payloadOvw r' ++ [0x09] ∧ payloadOvw r' ≠ payloadOvw row0 :=
-  waveform_setter_counterexample
+/-- `set_waveform` (likewise repaired): only the samples-per-entry / points / maximum fields of the overview
+waveform payload are replaced; its trailing bytes and every other column are byte-identical. -/
+theorem C04_setter_frame_waveform (ops : FOps) (w : List WEntry) (r r' : Row)
+    (h : applySetter ops (.waveform w) r = .ok r') :
+    payloadTrack r' = payloadTrack r ∧ payloadBeat r' = payloadBeat r ∧ payloadCues r' = payloadCues r ∧
+    payloadLoops r' = payloadLoops r ∧
+    ∃ o, writeWaveform ops w (getSampleCount r) (getSampleRate r) = .ok o ∧
+      payloadOvw r = V2.ovw.enc r.ovw.1 ++ r.ovw.2 ∧ payloadOvw r' = V2.ovw.enc o ++ r.ovw.2 :=
+  frame_waveform ops w r r' h
+
+/-- non-vacuity, on the rows of the former counterexamples: `set_loops(loops())` on a loops column with a
+foreign trailing byte 0xcc, `set_waveform(waveform())` on an overview column with a trailing 0x09 — both calls
+succeed and the payload, foreign byte included, is exactly the old one. -/
+example : ∃ r', applySetter ops0 (.loops (getLoops rowL)) rowL = .ok r' ∧
+    payloadLoops r' = payloadLoops rowL ∧ (payloadLoops r').getLast? = some 0xcc :=
+  loops_setter_keeps_extra_example
+example : ∃ r', applySetter ops0 (.waveform (getWaveform row0)) row0 = .ok r' ∧
+    payloadOvw r' = payloadOvw row0 ∧ (payloadOvw r').getLast? = some 0x09 :=
+  waveform_setter_keeps_extra_example
 
 end SetterFrame
 
